@@ -139,6 +139,7 @@ func New(opts Options) (CommitLog, error) {
 	if err := l.leaderEpochCache.ClearLatest(l.activeSegment().NextOffset()); err != nil {
 		return nil, err
 	}
+	crashPoint("open:epochs-trimmed")
 
 	// The earliest leader epoch may not be flushed during a hard failure.
 	// Recover it here.
@@ -175,6 +176,7 @@ func (l *commitLog) open() error {
 				if err := os.Remove(filepath.Join(l.Path, file.Name())); err != nil {
 					return err
 				}
+				crashPoint("open:orphan-index-removed")
 			} else if err != nil {
 				return errors.Wrap(err, "stat file failed")
 			}
